@@ -4,6 +4,7 @@ import time
 
 from common import Rule, finish
 from hirtab import ANY, C, L, T, adt_variants, callees, callees_inlined, candidates, lit_value
+from mirutil import Body, norm_def
 from hirutil import find, strip, walk
 
 MANDATORY = set(range(0x20)) | {0x22, 0x5C}  # RFC 8259 section 7: control characters, quotation mark, reverse solidus
@@ -81,6 +82,30 @@ def rule_utf8_sync(facts, rid):
                     if uses != (name in validated):
                         t5.violate(f"sync/{name}", f"format {name}: " + ("its parser is handed the text but the bytes are not validated as UTF-8" if uses else "the bytes are validated as UTF-8 although its parser reads the bytes themselves: input that standard input and the from* filter accept is rejected for file arguments"), where=bs[0]["sp"])
     return t5
+
+
+def rule_byte_writers(facts, rid):
+    t6 = Rule(rid, "the JSON writer to an I/O sink and the JSON writer to a buffer (behind tojson / @json / tostring) are the same code: they hand the same number of byte "
+              "slices to their sink with `write_all` (strings are written as bytes, not through a lossy display), so `tojson | fromjson` is exact also for invalid UTF-8", floor=2)
+
+    def sink_calls(d):
+        n_, seen_ = 0, 0
+        for j_ in facts.mir("jaq_json"):
+            if j_["def"] == d or j_.get("root") == d:
+                seen_ += 1
+                for i_, t_ in Body(j_).calls():
+                    if re.search(r"::write_all$", norm_def(t_.get("res") or t_.get("fn") or "")):
+                        n_ += 1
+        return n_, seen_
+    (nw, sw), (nb, sb) = sink_calls("jaq_json::write::write"), sink_calls("jaq_json::write::write_buf")
+    if not sw or not sb:
+        t6.missing_anchor("jaq_json::write::write / write_buf")
+    else:
+        t6.examined("io", True, {"writer": "write", "byte_slices_written": nw})
+        t6.examined("buf", True, {"writer": "write_buf", "byte_slices_written": nb})
+        if nw != nb or nb == 0:
+            t6.violate("byte-writes", f"the buffer writer behind tojson hands {nb} byte slices to its sink, the I/O writer {nw}: one of them writes strings through a formatter (lossy for invalid UTF-8) instead of as bytes", where=None)
+    return t6
 
 def run(facts, tier):
     t0 = time.time()
@@ -275,6 +300,9 @@ def run(facts, tier):
 
     # ---------------- T7.5 the bytes-to-text pre-check is synchronised with the per-format parsers
     rules.append(rule_utf8_sync(facts, "T7.5").finish())
+
+    # ---------------- T7.6 the two byte writers are the same code
+    rules.append(rule_byte_writers(facts, "T7.6").finish())
 
     explanation = ("Round-trip equality for all values is value-level (and half of it lives in the third-party lexer hifijson): not decided. Decided as constant tables extracted from the macro-expanded typed HIR: "
                    "the 256-row escape tables of the three writers, the numeric escape per string kind in writer and reader, decimals kept as text, identical spelling of special values and keywords, insertion-ordered objects.")
